@@ -30,14 +30,21 @@ var kindSets = map[string][]string{
 	"Ranged.Shift": {"Ranged", "PartialRange", "Range", "Join", "call:Expand"}, "Ranged.Expand": {"Between", "Ranged", "PartialRange", "Range"},
 	"Ambiguous.Reverse": {"Ambiguous"}, "Ambiguous.Normalize": {"Ambiguous"},
 	"Ambiguous.Shift": {"Ambiguous", "Order", "call:Expand"}, "Ambiguous.Expand": {"Between", "Ambiguous"},
+	// the part-wise kinds always rebuild through their reducing constructor: never the receiver (an
+	// "nothing moves" shortcut presumes ascending parts), never the raw slice (abutting parts must merge)
+	"Joined.Reverse": {"Join"}, "Joined.Normalize": {"Join"}, "Joined.Shift": {"Join"}, "Joined.Expand": {"Join"},
+	"Ordered.Reverse": {"Order"}, "Ordered.Normalize": {"Order"}, "Ordered.Shift": {"Order"}, "Ordered.Expand": {"Order"},
 }
+
+// partWise: kinds that have no identity shortcut at all.
+var partWise = map[string]bool{"Joined": true, "Ordered": true}
 
 // LocationMethodRules decides IDENTITY-RETURN and KIND-SET.
 func LocationMethodRules(p *core.Prog, r *core.Report, methods ...string) {
 	r.Rule("IDENTITY-RETURN", "a coordinate method (Shift, Expand, Reverse, Normalize) of Between, Point, Ranged, Ambiguous returns its receiver unchanged only under the reviewed identity condition `n == 0` of Shift/Expand: Reverse and Normalize always compute their result (a whole-sequence range is not its own mirror image: its partial markers swap ends)", len(methods))
-	r.Rule("KIND-SET", "each coordinate method of a contiguous kind builds its result only with the constructors of the reviewed set for that method (a range that shrinks to nothing becomes a between-site; one that keeps residues stays a range with its markers: turning a one-base remainder into a Point drops the markers and the Ranged type that Repair's merge needs)", len(methods)*3)
+	r.Rule("KIND-SET", "each coordinate method of a location kind builds its result only with the constructors of the reviewed set for that method (a range that shrinks to nothing becomes a between-site; one that keeps residues stays a range with its markers: turning a one-base remainder into a Point drops the markers and the Ranged type that Repair's merge needs)", len(methods)*3)
 	info := p.Info(gts)
-	for _, recv := range []string{"Between", "Point", "Ranged", "Ambiguous"} {
+	for _, recv := range []string{"Between", "Point", "Ranged", "Ambiguous", "Joined", "Ordered"} {
 		for _, m := range methods {
 			name := recv + "." + m
 			fd := p.FuncDecl(gts, name)
@@ -67,6 +74,9 @@ func LocationMethodRules(p *core.Prog, r *core.Report, methods ...string) {
 				// the receiver itself?
 				if o := core.ObjOf(info, e); o != nil && o == recvObj {
 					want := identityShortcuts[m]
+					if partWise[recv] {
+						want = ""
+					}
 					ok := false
 					if want != "" {
 						// inside the then-branch of `if <identity condition>` (an else branch, or an else-if
